@@ -60,6 +60,14 @@ func (g *Grammar) goFieldType(prefix string, f Field) string {
 		return "gram.PTok"
 	case FParss:
 		return "[]gram.PTok"
+	case FCapt:
+		return "gram.CapStr"
+	case FCaptP:
+		return "*gram.CapStr"
+	case FCapts:
+		return "[]gram.CapStr"
+	case FText:
+		return "gram.TextStr"
 	}
 	return "string"
 }
